@@ -388,6 +388,11 @@ func connectOps() []hop {
 		cm(m).SetPassword([]byte("pw"))
 		p.HasPass, p.Pass = true, []byte("pw")
 	}})
+	// a flag taken back while the value stays in the object: the field is gone from the
+	// message, Len() and Encode() have to agree on that
+	ops = append(ops, hop{"SetUsernameFlag(false)", func(m message.Message, p *refcodec.Packet) { cm(m).SetUsernameFlag(false); p.HasUser = false }})
+	ops = append(ops, hop{"SetPasswordFlag(false)", func(m message.Message, p *refcodec.Packet) { cm(m).SetPasswordFlag(false); p.HasPass = false }})
+	ops = append(ops, hop{"SetWillFlag(false)", func(m message.Message, p *refcodec.Packet) { cm(m).SetWillFlag(false); p.Will = false }})
 	return append(ops, lenEncode()...)
 }
 
